@@ -487,7 +487,26 @@ def inline_helpers(ix, fi, depth: int = 2, skip=(), tail: bool = True):
                         nk.append(k)
                 c.keywords = nk
                 return c
+        # locals of the helper that collide with names of the caller are renamed (no capture)
+        hp = set(ps) | ({va} if va else set()) | ({kwa} if kwa else set())
+        hl = {x.id for st in body for x in ast.walk(st) if isinstance(x, ast.Name) and isinstance(x.ctx, (ast.Store, ast.Del))} - hp
+        caller_names = {x.id for x in ast.walk(fn) if isinstance(x, ast.Name)} | {a.arg for a in ast.walk(fn) if isinstance(a, ast.arg)}
+        ren = {n_: n_ + "__" + g.name.strip("_") for n_ in hl if n_ in caller_names}
+        if ren:
+            for st in body:
+                for x in ast.walk(st):
+                    if isinstance(x, ast.Name) and x.id in ren:
+                        x.id = ren[x.id]
         return [V().visit(_subst(st, mapping)) for st in body]
+
+    def single_final_return(stmts):
+        """(statements before, returned expression) when the only `return <value>` of the helper body is its last
+        top-level statement; None otherwise."""
+        if not stmts or not isinstance(stmts[-1], ast.Return) or stmts[-1].value is None:
+            return None
+        if any(isinstance(r, ast.Return) for st in stmts[:-1] for r in walk_local(st)):
+            return None
+        return stmts[:-1], stmts[-1].value
 
     for _ in range(depth):
         changed = False
@@ -509,6 +528,21 @@ def inline_helpers(ix, fi, depth: int = 2, skip=(), tail: bool = True):
                             new.extend(rep)
                             changed = True
                             continue
+                    if isinstance(st, (ast.Assign, ast.AnnAssign)) and isinstance(getattr(st, "value", None), ast.Call):
+                        rep = expandable(st.value, allow_value=True)       # `x = self._helper(...)`, helper ends in its only return
+                        sfr = single_final_return(rep) if rep is not None else None
+                        if sfr is not None:
+                            before, expr = sfr
+                            st.value = expr
+                            for r in before:
+                                ast.copy_location(r, st)
+                                for x in ast.walk(r):
+                                    if hasattr(x, "lineno"):
+                                        x.lineno = st.lineno
+                            new.extend(before)
+                            new.append(st)
+                            changed = True
+                            continue
                     if isinstance(st, ast.Expr) and isinstance(st.value, ast.Call):
                         rep = expandable(st.value)
                         if rep is not None:
@@ -523,6 +557,44 @@ def inline_helpers(ix, fi, depth: int = 2, skip=(), tail: bool = True):
                     new.append(st)
                 setattr(node, fld, new)
         if not changed:
+            break
+    # calls of private single-return-expression helpers in expression position (any number of call sites)
+    class E(ast.NodeTransformer):
+        def visit_Call(self, c):
+            self.generic_visit(c)
+            g, is_method = _callee(ix, fi, c)
+            if g is None or not g.name.startswith("_") or g.name.startswith("__") or not isinstance(g.node, ast.FunctionDef) or g.name in skip or g.node.decorator_list:
+                return c
+            r = single_return(g.node)
+            if r is None or any(isinstance(a, ast.Starred) for a in c.args) or any(k.arg is None for k in c.keywords):
+                return c
+            ps = [a.arg for a in g.node.args.args]
+            if is_method and ps and ps[0] in ("self", "cls"):
+                ps = ps[1:]
+            sub = dict(zip(ps, c.args))
+            sub.update({k.arg: k.value for k in c.keywords if k.arg in ps})
+            defaults = g.node.args.defaults
+            for p_, d_ in zip(ps[len(ps) - len(defaults):], defaults):
+                sub.setdefault(p_, d_)
+            if len(c.args) > len(ps) or set(sub) != set(ps) or g.node.args.vararg or g.node.args.kwarg or g.node.args.kwonlyargs:
+                return c
+            # a non-trivial argument may only be substituted for a parameter that is read at most once
+            body = clone(r)
+            uses = {}
+            for x in ast.walk(body):
+                if isinstance(x, ast.Name) and x.id in sub:
+                    uses[x.id] = uses.get(x.id, 0) + 1
+            if any(n_ > 1 and not isinstance(sub[p_], (ast.Name, ast.Constant, ast.Attribute)) for p_, n_ in uses.items()):
+                return c
+            out = _subst(body, sub)
+            for x in ast.walk(out):
+                if hasattr(x, "lineno"):
+                    x.lineno = getattr(c, "lineno", 1)
+            return ast.copy_location(out, c)
+    for _ in range(depth):
+        before = ast.dump(fn)
+        fn = E().visit(fn)
+        if ast.dump(fn) == before:
             break
     ast.fix_missing_locations(fn)
     return _set_parents(fn)
